@@ -243,6 +243,8 @@ def code_layer(g, chart, level, canary=False):
         canon[t_] = min(u for u, x in enumerate(chart['tr']) if x == tr_)
 
     def code(kind, ident):
+        if kind == 'guard' and canon[ident] != ident:
+            return 'True  # placeholder %d' % ident     # made equal to its twin after registration (see below)
         if kind in ('guard', 'action'):
             ident = canon[ident]
         if kind == 'guard':
@@ -260,6 +262,9 @@ def code_layer(g, chart, level, canary=False):
         tro = ([0] + list(range(2, m_)) + [1]) if (level.get('interleave') and m_ >= 3) else None
         sc, trs, cm = cg.build(chart, 'id', code, name=rot(NAME_POOL, off, 0), preamble=rot(CODE_POOL, off, 3),
                                priorities=[rot(PRIO_POOL, off, canon[t], 3) for t in range(m_)], tr_order=tro)
+        for t_ in range(m_):
+            if canon[t_] != t_:       # a true duplicate that was produced by editing, not by add_transition
+                trs[t_].guard = trs[canon[t_]].guard
         sc.description = rot(DESC_POOL, off, 0, 2)
         for i in range(cm.n):
             st = sc.state_for(cm.names[i])
